@@ -67,9 +67,11 @@ pub fn total(ctx: &mut Ctx, id: &str, src: &str, c: &Cfg, range: Range, family: 
                 *e = ratio;
             }
             if out.ticks > tick_budget(ntok) {
+                // on a depth ramp the depth at which the budget is first exceeded is part of the finding
+                let at = if family.starts_with("depth-ramp") { id.rsplit(':').next().filter(|t| t.starts_with('d')).map(|t| format!(":{t}")).unwrap_or_default() } else { String::new() };
                 ctx.finding(
                     "step-budget",
-                    &format!("ticks:{family}"),
+                    &format!("ticks:{family}{at}"),
                     &format!("{} logical steps for {} tokens (budget {})", out.ticks, ntok, tick_budget(ntok)),
                     case(),
                 );
@@ -204,11 +206,12 @@ fn ramp(family: usize, d: usize) -> String {
         16 => format!("type T = {}number{}\n", "{ field: ".repeat(d), " }".repeat(d)),
         17 => format!("local x = {}1{}\n", "if c then (".repeat(d), ") else 0".repeat(d)),
         18 => format!("type T = {}nil{}\n", "(() -> ".repeat(d), ")?".repeat(d)),
+        20 => format!("type T = {}number{}\n", "{".repeat(d), "}".repeat(d)),
         _ => format!("local x = {}v{}\n", "(".repeat(d), " :: any)".repeat(d)),
     }
 }
 
-const N_RAMP_FAMILIES: usize = 20;
+const N_RAMP_FAMILIES: usize = 21;
 const RAMP_WIDTHS: [usize; 3] = [120, 40, 1];
 const N_RAMPS: usize = N_RAMP_FAMILIES * 3;
 
@@ -378,9 +381,11 @@ pub fn run_item(w: &Work, ctx: &mut Ctx, mut i: usize) {
                     let r = |k: usize| series[k].1 as f64 / series[k - 1].1.max(1) as f64;
                     let (r1, r2, r3) = (r(n - 3), r(n - 2), r(n - 1));
                     if series[n - 4].1 > 50 && r1 >= 2.0 && r2 >= 2.0 && r3 >= 2.0 && r3 >= 0.9 * r2 && r2 >= 0.9 * r1 {
+                        // a steeper law than the listed ones (x4 per step = x2 per level) is another finding
+                        let steep = if r1.min(r2).min(r3) >= 6.0 { ":steep" } else { "" };
                         ctx.finding(
                             "step-growth",
-                            &format!("ticks-growth:ramp{i}{wtag}"),
+                            &format!("ticks-growth:ramp{i}{wtag}{steep}"),
                             &format!("logical steps per depth {:?}: the last three step ratios are >= 2 and do not decay (more than polynomial)", &series[n - 4..]),
                             case_json(&format!("c07:ramp:{i}{wtag}:d{d}"), &src, &c, None),
                         );
